@@ -41,7 +41,7 @@ static void svd_observe(Line& l, PartialSVDSolver<MatrixType>& svd, const Dense&
     const int k = (int) sv.size();
     const LD nA = AL.norm();
     l.i("nconv", nconv).i("nsv", k).i("ucols", (ll) U.cols()).i("vcols", (ll) V.cols()).i("urows", (ll) U.rows()).i("vrows", (ll) V.rows());
-    l.i("fin", (all_finite(sv) && all_finite(U) && all_finite(V)) ? 1 : 0);
+    l.i("fin", all_finite(sv) ? 1 : 0).i("ffin", (all_finite(U) && all_finite(V)) ? 1 : 0);
     int nonneg = 1, noninc = 1;
     for (int i = 0; i < k; i++)
     {
@@ -121,6 +121,15 @@ static void svd_case(const Desc& d, const MatL& AL0, int ncomp, int ncv, const c
         g.mat(fresh.matrix_U(ncomp));
         g.mat(fresh.matrix_V(ncomp));
         l.i("fdg", g.word30()).i("fnconv", nconv_f);
+        // increasing-k call sequence on the fresh object of a third solver: matrix_U(1) first, then matrix_V(ncomp), matrix_U(ncomp)
+        {
+            PartialSVDSolver<MatrixType> inc(A, ncomp, ncv);
+            ll nc3 = (ll) inc.compute(mx, tl);
+            ll u1 = (ll) inc.matrix_U(1).cols();
+            ll vall = (ll) inc.matrix_V(ncomp).cols();
+            ll uall = (ll) inc.matrix_U(ncomp).cols();
+            l.i("inc_nconv", nc3).i("inc_u1", u1).i("inc_v", vall).i("inc_u", uall);
+        }
         out().put(l);
     }
 }
@@ -142,6 +151,15 @@ static void mode_svd(const Desc& d)
         VecL s = VecL::Zero(mn);
         for (int i = 0; i < rank; i++)
             s[i] = (LD)(rank - i) + 0.25L * r.uni();
+        const bool close = (c % 6 == 2) && mn >= 8;
+        if (close)
+        {
+            // two close wanted singular values: with a small maxit the converged set can have a hole (5th converges before the 4th)
+            const LD lead[5] = {3.0L, 2.8L, 2.6L, 2.40L, 2.39L};
+            for (int i = 0; i < mn; i++)
+                s[i] = i < 5 ? lead[i] : 1.0L / (LD)(i - 3);
+            rank = mn;
+        }
         MatL U = rand_orth(m, r), V = rand_orth(n, r);
         MatL A = U.leftCols(mn) * s.asDiagonal() * V.leftCols(mn).transpose();
         int ncomp = 1 + r.below(std::min(4, mn - 1));
@@ -157,6 +175,13 @@ static void mode_svd(const Desc& d)
         dd.kv["tola"] = (c % 2) ? "-6" : "-10";
         dd.kv["maxb"] = "1000";
         dd.kv["tolb"] = "-10";
+        if (close)
+        {
+            ncomp = 5;
+            ncv = std::min(mn, 6 + r.below(6));
+            dd.kv["maxa"] = std::to_string(3 + r.below(30));   // partial convergence
+            dd.kv["maxb"] = std::to_string(3 + r.below(30));
+        }
         const int form = c % 3;
         if (form == 0)
             svd_case<Eigen::MatrixXd>(dd, A, ncomp, ncv, "dense", 0);
@@ -284,7 +309,7 @@ static void mode_lobpcg(const Desc& d)
 
 // =============================================================================================== C15: Davidson
 template <typename OpType, typename MatT>
-static void davidson_case(const Desc& d, const MatL& AL0, const char* store, int nev, int rule, double tol, int maxit, int guess, Rng& r, int init, int maxs, int corr)
+static void davidson_case(const Desc& d, const MatL& AL0, const char* store, int nev, int rule, double tol, int maxit, int guess, Rng& r, int init, int maxs, int corr, bool twice = false)
 {
     typedef Eigen::MatrixXd Mat;
     Mat Ad = AL0.cast<double>();
@@ -323,6 +348,14 @@ static void davidson_case(const Desc& d, const MatL& AL0, const char* store, int
             else
                 G.col(cols - 1) = 2.0 * G.col(0) + G.col(1);
             ret = (ll) s->compute_with_guess(G, (SortRule) rule, maxit, tol);
+        }
+        if (d.i("twice", 0) == 1 || twice)
+        {
+            // history: a first compute() with another rule on the same object; the observed call is the second one
+            const int other = rule == 3 ? 7 : 3;
+            (void) ret;
+            ret = (ll) s->compute((SortRule) rule == (SortRule) other ? (SortRule) 0 : (SortRule) other, maxit, tol);
+            ret = (ll) s->compute((SortRule) rule, maxit, tol);
         }
         Eigen::VectorXd ev = s->eigenvalues();
         Mat X = s->eigenvectors();
@@ -397,7 +430,7 @@ static void mode_davidson(const Desc& d)
         const int n = 20 + r.below(60);
         // diagonally dominant: distinct diagonal plus weak symmetric coupling (the regime the method is designed for)
         MatL A = MatL::Zero(n, n);
-        const LD coupling = (c % 5 == 4) ? 0.3L : 0.01L;
+        const LD coupling = (c % 5 == 4) ? 0.3L : ((c % 7 == 3) ? 0.1L : 0.01L);
         std::vector<int> perm(n);
         for (int i = 0; i < n; i++)
             perm[i] = i;
@@ -420,10 +453,18 @@ static void mode_davidson(const Desc& d)
             corr = nev;
             maxs = init + corr * (1 + r.below(3));   // small maximal space: restarts happen
         }
+        const bool twice = (c % 8 == 3);
+        if (c % 8 == 6 && nev >= 2)
+        {
+            // correction size below nev (legal: initial + correction <= n): every one of the nev pairs must still be converged
+            init = 2 * nev;
+            maxs = 10 * nev;
+            corr = nev - 1;
+        }
         if (c % 2 == 0)
-            davidson_case<DenseSymMatProd<double>, Eigen::MatrixXd>(d, A, "dense", nev, rule, tol, 300, guess, r, init, maxs, corr);
+            davidson_case<DenseSymMatProd<double>, Eigen::MatrixXd>(d, A, "dense", nev, rule, tol, 300, guess, r, init, maxs, corr, twice);
         else
-            davidson_case<SparseSymMatProd<double>, Eigen::SparseMatrix<double> >(d, A, "sparse", nev, rule, tol, 300, guess, r, init, maxs, corr);
+            davidson_case<SparseSymMatProd<double>, Eigen::SparseMatrix<double> >(d, A, "sparse", nev, rule, tol, 300, guess, r, init, maxs, corr, twice);
     }
 }
 
